@@ -411,7 +411,7 @@ inductive Ev where
   /-- `NewResolver` alone: a new process exists and has not refreshed yet
   (`run()` waits for the middleware and calls `checkPriming` before the first
   `AutoTA`); its trust set is `startupKeys`. -/
-  | boot
+  | boot (fl : Faults)
 deriving DecidableEq, Repr
 
 /-- `startupRootKeys(cfg.Directory, configured)`: the trust set of a starting
@@ -419,8 +419,11 @@ process (`NewResolver`, since /repo 24304ea): the configured keys minus those
 on record as revoked — tombstone store, `StateRevoked`/`StateRemoved` markers
 of a readable state file — and minus keys that carry the REVOKE bit; a
 tombstone store that exists but does not load leaves nothing to trust. -/
-def startupKeys (cfg : List Key) (d : Disk) : List Key :=
-  let markers : List Nat := match d.state with
+def startupKeys (cfg : List Key) (d : Disk) (fl : Faults := {}) : List Key :=
+  -- `fl`: read faults at process start. ANY `readTombstones` error (open error included, not
+  -- only undecodable bytes) leaves nothing to trust; an unreadable state file contributes no markers.
+  if fl.tombRead then [] else
+  let markers : List Nat := if fl.stateRead then [] else match d.state with
     | .ok tas => (tas.filter (fun ta => isMarker ta.st)).map (·.key.mat)
     | _ => []
   match d.tomb with
@@ -442,7 +445,7 @@ def step (P : Params) (cfg : List Key) (s : Sys) : Ev → Sys
   | .damage .state => { s with disk := { s.disk with state := .corrupt } }
   | .damage .tombEmpty => { s with disk := { s.disk with tomb := .empty } }
   | .damage .stateEmpty => { s with disk := { s.disk with state := .empty } }
-  | .boot => { s with proc := some (startupKeys cfg s.disk) }
+  | .boot fl => { s with proc := some (startupKeys cfg s.disk fl) }
   | .run f fl crash =>
     let r := runResult P cfg s f fl
     match crash with
